@@ -75,6 +75,18 @@ fresh_repo
   && apply_edit $RAW 'fn capacity_to_buckets(cap: usize, table_layout: TableLayout) -> Option<usize> {' 'fn capacity_to_buckets(cap: usize,\n    table_layout: TableLayout) -> Option<usize>\n{ // reformatted' ; } \
   && run_case rename_comment_only pass || bad_case rename_comment_only pass
 
+fresh_repo
+{ apply_edit $RAW 'fn move_next(&mut self, bucket_mask: usize) {' 'fn move_next(&mut self, mask: usize) {' \
+  && apply_edit $RAW 'self.pos &= bucket_mask;' 'self.pos &= mask; // renamed parameter' \
+  && apply_edit $RAW 'let len = ctrl_offset.checked_add(buckets + Group::WIDTH)?;' 'let total_len = ctrl_offset.checked_add(buckets + Group::WIDTH)?;' \
+  && apply_edit $RAW 'if len > isize::MAX as usize - (ctrl_align - 1) {' 'if total_len > isize::MAX as usize - (ctrl_align - 1) {' \
+  && apply_edit $RAW 'unsafe { Layout::from_size_align_unchecked(len, ctrl_align) },' 'unsafe { Layout::from_size_align_unchecked(total_len, ctrl_align) },' \
+  && apply_edit src/control/tag.rs 'let top7 = hash >> (MIN_HASH_LEN * 8 - 7);' 'let top_seven = hash >> (MIN_HASH_LEN * 8 - 7);' \
+  && apply_edit src/control/tag.rs 'Tag((top7 & 0x7f) as u8)' 'Tag((top_seven & 0x7F) as u8)' \
+  && apply_edit src/control/group/generic.rs 'let cmp = self.0 ^ repeat(tag);' 'let x = self.0 ^ repeat(tag);' \
+  && apply_edit src/control/group/generic.rs 'BitMask((cmp.wrapping_sub(repeat(Tag(0x01))) & !cmp & repeat(Tag::DELETED)).to_le())' 'BitMask((x.wrapping_sub(repeat(Tag(1))) & !x & repeat(Tag::DELETED)).to_le())' ; } \
+  && run_case rename_other_functions pass || bad_case rename_other_functions pass
+
 # ---- (b) semantic edits: every one must break regeneration + GenEq --------------------------
 fresh_repo
 apply_edit $RAW 'if cap < 15 {' 'if cap < 16 {' && run_case cap_lt_15_to_16 fail || bad_case cap_lt_15_to_16 fail
